@@ -6,6 +6,9 @@ import (
 	"strings"
 	"time"
 
+	"github.com/vektah/gqlparser/v2/ast"
+	"github.com/vektah/gqlparser/v2/parser"
+
 	"verifharness/internal/core"
 	"verifharness/internal/gen"
 )
@@ -124,12 +127,29 @@ func runC16(c *core.Ctx) {
 				} else {
 					args = [][]byte{[]byte("0"), []byte(strconv.Itoa(l)), []byte("0"), []byte(in)}
 				}
-				t0 := time.Now()
 				out := c.Impl(0, op, args...)
-				el := time.Since(t0)
+				// the parse itself, without the harness plumbing around it (copies of a multi-megabyte
+				// argument); the least of three runs, so that a busy machine does not look like work
+				el := time.Hour
+				for rep := 0; rep < 3; rep++ {
+					src := &ast.Source{Name: "big", Input: in}
+					t0 := time.Now()
+					func() {
+						defer func() { _ = recover() }()
+						if op == "pq" {
+							_, _ = parser.ParseQueryWithTokenLimit(src, l)
+						} else {
+							_, _ = parser.ParseSchemaWithLimit(src, l)
+						}
+					}()
+					if d := time.Since(t0); d < el {
+						el = d
+					}
+				}
 				c.Count("big_inputs_under_limit_measured", 1)
-				// work proportional to L: generous constant, independent of the input size
-				budget := 50*time.Millisecond + time.Duration(l)*100*time.Microsecond
+				// work proportional to L: generous constant, independent of the input size (a parse
+				// that reads a 2 MiB comment run to its end takes 130 ms here, this one microseconds)
+				budget := 40*time.Millisecond + time.Duration(l)*100*time.Microsecond
 				if el > budget || !strings.HasPrefix(out, "err") {
 					c.ReportOracle("limit-does-not-bound-work", map[string]interface{}{"family": name, "bytes": len(in), "limit": l, "op": op,
 						"seconds": el.Seconds(), "budget_seconds": budget.Seconds(), "outcome": out[:min(len(out), 60)]})
